@@ -216,16 +216,6 @@ func c07MapOrd(cs c07Case) core.Outcome {
 	return o
 }
 
-func firstDiff(a, b string) string {
-	la, lb := strings.Split(a, "\n"), strings.Split(b, "\n")
-	for i := 0; i < len(la) && i < len(lb); i++ {
-		if la[i] != lb[i] {
-			return fmt.Sprintf("line %d: %q vs %q", i+1, la[i], lb[i])
-		}
-	}
-	return fmt.Sprintf("length %d vs %d lines", len(la), len(lb))
-}
-
 func c07Seq(cs c07Case) core.Outcome {
 	var o core.Outcome
 	o.Class = "seq"
